@@ -25,10 +25,12 @@ Tag(c, t) == IF c THEN <<>> ELSE <<t>>
 
 ObsCounted(st) == [s \in {st.gset[i].m : i \in 1..Len(st.gset)} |->
                      (CHOOSE i \in 1..Len(st.gset) : st.gset[i].m = s) \in {i \in 1..Len(st.gset) : st.gset[i].valid}]
+ObsKeys(st)    == [s \in Members |-> st.keys[s]]
 ObsRSet(st)    == {st.rset[i].m : i \in 1..Len(st.rset)}
 ObsSigValid(st) == st.recSigValid /\ st.recRandValid /\ st.checkSig = ""
 
-KindOrder == <<"otherHash", "replay", "garbage", "offcurve", "badRand", "emptyRand", "swapped", "shiftRandom", "shiftSmall", "nonMember", "honest">>
+KindOrder == <<"otherHash", "replay", "garbage", "offcurve", "badRand", "emptyRand", "swapped", "shiftRandom", "shiftSmall",
+              "selfGarbage", "selfOther", "selfSender", "announceOther", "underOtherKey", "announce", "nonMember", "honest">>
 RECURSIVE JoinKinds(_, _, _)
 JoinKinds(S, i, sep) == IF i > Len(KindOrder) THEN ""
                         ELSE IF KindOrder[i] \in S THEN sep \o KindOrder[i] \o JoinKinds(S, i + 1, "+")
@@ -50,12 +52,18 @@ JudgeMsg(e) ==
       f    == e.facts
       cnt2 == ObsCounted(st)
       added == m.sender \in Dom(cnt2) /\ m.sender \notin Dom(counted)
-      ref  == Accepts(counted, recovered, m, FALSE)
+      ref  == Accepts(keys, counted, recovered, m, FALSE)
+      ks2  == ObsKeys(st)
       allValid == AllValid(cnt2)
   IN  (* the real verdicts on the constructed shares are those of the message class *)
-      Tag(/\ f.isMember = IsMember(m) /\ f.signedIsH = (Signed(m) = H)
-          /\ f.sigValidForSigned = SigOK(m) /\ f.sigValidForH = ValidForH(m)
-          /\ f.randValid = RandOK(m), "Proj.facts:" \o m.kind) \o
+      Tag(IsKeyMsg(m) \/
+          (/\ f.isMember = IsMember(m) /\ f.signedIsH = (Signed(m) = H)
+           /\ f.sigValidForSigned = SigOK(m) /\ f.sigValidForH = ValidForH(m)
+           /\ f.randValid = RandOK(m)), "Proj.facts:" \o m.kind) \o
+      (* the key shares are checked against: a stored key is never replaced, and it is the member's own *)
+      Tag(\A s \in Members : keys[s] # "none" => ks2[s] = keys[s], "Inv.KeyTableFirstWins:" \o m.kind) \o
+      Tag(\A s \in Members : ks2[s] \in {"none", "genuine"} \/ ks2[s] = keys[s], "Inv.KeyTableGenuine:" \o m.kind) \o
+      Tag(ks2 = KeysAfter(keys, m, FALSE) \/ \E s \in Members : ks2[s] = "other", "Step.keys:" \o m.kind) \o
       (* clause 1: only the sender's valid share for this block's hash, with a valid beacon share, from a member *)
       Tag(~NewlyInvalid(e), "Inv.OnlyValidShares:" \o m.kind) \o
       (* clause 2: once the threshold is reached the recovered signatures verify under the group key *)
@@ -88,10 +96,12 @@ TraceNext ==
   /\ LET e == Trace[l] IN
        /\ bad' = bad \o [i \in 1..Len(Judge(e)) |-> <<l, e.event, Judge(e)[i]>>]
        /\ IF e.event = "Start"
-            THEN /\ counted' = <<>> /\ rcounted' = {} /\ recovered' = FALSE /\ sigValid' = FALSE
+            THEN /\ keys' = ObsKeys(e)
+                 /\ counted' = <<>> /\ rcounted' = {} /\ recovered' = FALSE /\ sigValid' = FALSE
                  /\ hist' = <<>> /\ culprits' = {} /\ invalidBefore' = {}
             ELSE IF e.event = "Msg"
-            THEN /\ counted' = ObsCounted(e.state)
+            THEN /\ keys' = ObsKeys(e.state)
+                 /\ counted' = ObsCounted(e.state)
                  /\ rcounted' = ObsRSet(e.state)
                  /\ recovered' = e.state.recovered
                  /\ sigValid' = (e.state.recovered /\ ObsSigValid(e.state))
